@@ -416,8 +416,10 @@ def policy(run, m, F, E, pairs):
                             elif it.kind == 'ret':
                                 code = ret_code(it)
                                 allowed = [errs.get('latin1_out_of_range')] if (p.tgt == 'latin_1' and fl == 0) else []
-                                if mname == 'check_validity' and p.tgt in ('utf16', 'utf8', 'latin_1'):
-                                    allowed.append(errs.get('out_of_range'))       # tolerated form the target cannot represent
+                                if mname == 'check_validity' and p.tgt in ('utf16', 'utf8', 'latin_1') and p.src == 'utf8':
+                                    # a tolerated UTF-8 form (4 bytes above U+10FFFF) that the target cannot represent; UTF-16 / UTF-32
+                                    # sources of an accepted class hold scalar values up to U+10FFFF only, which every target takes
+                                    allowed.append(errs.get('out_of_range'))
                                 if code in (None, 0) or code not in allowed:
                                     bad.append('well-formed input rejected with code %r under %s' % (code, label))
                                 sig.append(('err', code))
